@@ -200,6 +200,9 @@ def rule_hd_arity(cx, rep, port):
             if e.kind == 'sink' and e.what == 'set_header':
                 break
             adj += _prepend_delta(e)
+        if adj != need and _header_absent(r):
+            good += 1  # no header is produced on this path (the guard `<header> is not None` is false): nothing to adjust
+            continue
         if adj != need:
             hdr = [e.node for e in r.events if e.kind == 'sink' and e.what == 'set_header']
             key = 'need{}got{}'.format(need, adj)
@@ -211,6 +214,16 @@ def rule_hd_arity(cx, rep, port):
     if good:
         rep.holds('header arity', w.fd, '{} non-error paths: header arity adjustments equal the arity delta of the installed writers ({} paths with DISTINCT COUNT)'.format(good, n_plus))
     rep.require_count('paths installing a +1 writer', n_plus + sum(1 for k in bad), 1, w.fd)
+
+
+def _header_absent(r):
+    for text, val in r.opaque.items():
+        for h in ('output_header', 'input_header'):
+            if (h + ' is not None') in text and val is False:
+                return True
+            if (h + ' is None') in text and val is True:
+                return True
+    return False
 
 
 def _prepend_delta(e):
